@@ -74,8 +74,16 @@ func HarnessC18Name() {
 	legacy := vndChoice(2) == 1
 	c18Scheme(legacy)
 	c := &collector{withoutUnits: vndChoice(2) == 1, withoutCounterSuffixes: vndChoice(2) == 1}
-	if vndChoice(2) == 1 {
-		c.namespace = "ns_"
+	// the namespace goes through the WithNamespace option (sanitised under the
+	// legacy scheme, separated from the name by exactly one underscore)
+	nsIn := []string{"", "ns", "ns_", "my.app", "my.app_"}[vndChoice(5)]
+	wantNS := ""
+	if nsIn != "" {
+		c.namespace = WithNamespace(nsIn).apply(config{}).namespace
+		wantNS = strings.TrimSuffix(nsIn, "_") + "_"
+		if legacy {
+			wantNS = strings.ReplaceAll(wantNS, ".", "_")
+		}
 	}
 	got := c.getName(metricdata.Metrics{Name: name, Unit: unit}, &typ)
 	vndReach("named")
@@ -97,8 +105,8 @@ func HarnessC18Name() {
 		rest = strings.TrimRight(rest, "_.")
 		vndAssert(!strings.HasSuffix(rest, suffix), "unit-suffix-not-duplicated")
 	}
-	if c.namespace != "" {
-		vndAssert(strings.HasPrefix(got, "ns_"), "namespace-prefix-present")
+	if nsIn != "" {
+		vndAssert(strings.HasPrefix(got, wantNS), "namespace-prefix-present")
 	}
 }
 
